@@ -433,7 +433,10 @@ public:
     {
         SPECTRA_VERIF_EVENT("ComputeBegin", this, (long long) selection, (long long) maxit, (long long) sorting);
         // The m-step Arnoldi factorization
-        m_fac.factorize_from(1, m_ncv, m_nmatop);
+        // If compute() is called again without a new init(), the factorization is already
+        // at step ncv, and it is continued instead of being rebuilt from a stale residual
+        const Index from_k = (std::max)(Index(1), m_fac.subspace_dim());
+        m_fac.factorize_from(from_k, m_ncv, m_nmatop);
         retrieve_ritzpair(selection);
         // Restarting
         Index i, nconv = 0, nev_adj;
